@@ -149,7 +149,7 @@ theorem inv_first (hg : GtOk c) {x0 : X} {y0 : Y} (h0 : c.f x0 = .val y0) (hb : 
       omega
   have hgt : c.gt y0 c.negInf = true := by rw [hg]; exact decide_eq_true hbot
   simp only [boundedCall, hb, if_true, limitedCall, hl, h0, afterCall, record, counted, init, hgt, Bool.false_eq_true, if_false]
-  refine ⟨rfl, ⟨⟨x0, rfl, h0, List.mem_cons_self⟩, ?_, ?_, rfl, ?_⟩, rfl, List.mem_cons_self⟩
+  refine ⟨trivial, ⟨⟨x0, rfl, h0, List.mem_cons_self⟩, ?_, ?_, rfl, ?_⟩, trivial, List.mem_cons_self⟩
   · intro z hz
     simp at hz
     rw [hz]; exact hb
